@@ -28,7 +28,7 @@ func deleteRepoModel(c *Ctx) (int64, int64) {
 	cfg := func(override string) string {
 		// (a crash needs the persisted-ahead mutation id <= MaxMut: MaxMut = Stride allows one crash,
 		// 2 x Stride a second one inside the recovery)
-		return fmt.Sprintf("SPECIFICATION SpecDel\nCONSTANTS\n  MaxVersions = 3\n  MaxRepos = 2\n  MaxInsts = 0\n  MaxMut = %d\n  Stride = 2\n  MaxCrashes = %d\n%sINVARIANTS Inv_C04_StartupSucceeds Inv_C04_Recoverable Inv_C12_CountersAhead\nCHECK_DEADLOCK FALSE\n",
+		return fmt.Sprintf("SPECIFICATION SpecDel\nCONSTANTS\n  MaxVersions = 3\n  MaxRepos = 2\n  MaxInsts = 0\n  MaxMut = %d\n  Stride = 2\n  MaxCrashes = %d\n  MaxAdmin = 1\n%sINVARIANTS Inv_C04_StartupSucceeds Inv_C04_Recoverable Inv_C12_CountersAhead\nCHECK_DEADLOCK FALSE\n",
 			c.pick(2, 4), c.pick(1, 2), override)
 	}
 	r := c.MustModelCheck(tlc.Opts{Module: "DvidPersistDel_mc", Config: "gen_del.cfg", Files: map[string][]byte{"gen_del.cfg": []byte(cfg(""))}, Timeout: 20 * time.Minute})
